@@ -206,6 +206,20 @@ def check_build(facts, chk, rule, tier):
                 names, rows, _w = W.table('all.skf')
                 bad.append(((k, ss, 'file list', lines), 'saved table (names %s) differs from the build of each line\'s own files; rows only saved %s, only specified %s' %
                             (names, [r for r in rows if r not in want[1]][:3], [r for r in want[1] if r not in rows][:3])))
+    # positional sequence files in different directories with the same file name: every file is a sample (all named alike), in input order
+    n += 1
+    W = World(facts)
+    paths = []
+    for i, (nm, recs) in enumerate(SAMPLES):
+        pth = 'run_%d/contigs.fa' % i
+        W.seq[pth] = ('fasta', [('r%d' % j, sq, None) for j, sq in enumerate(recs)])
+        paths.append(pth)
+    st = W.run(W.command('Build', seq_files=some(W.strings(paths)), file_list=NONE, output=S('all'), k=BV(64, 5), proportion_reads=NONE, single_strand=BV(1, 0),
+                         min_count=NONE, min_qual=BV(8, 20), qual_filter=_qualfilter(facts, 'Strict'), threads=BV(64, 1)))
+    want = spec_table([('contigs', recs) for _, recs in SAMPLES], 5, 1)
+    if st != 0 or 'all.skf' not in W.skf or W.table('all.skf')[:2] != (want[0], want[1]):
+        got = W.table('all.skf')[0] if 'all.skf' in W.skf else None
+        bad.append(((5, 0, 'same file name in different directories', paths), 'status %s; samples %s, expected one per input file %s' % (st, got, want[0])))
     # both sides of the integer-width boundary: k = 31 is stored with 64-bit, k = 33 with 128-bit split k-mers
     long = [('l0', ['ACCAGTTGACCATGGTACCAGATTACAGGCATCCAAGT']), ('l1', ['ACCAGTTGACCATGGTACGAGATTACAGGCATCCAAGT'])]
     for kk, ww in ((31, 'u64'), (33, 'u128')):
@@ -379,6 +393,29 @@ def check_weed(facts, chk, rule, tier):
                         bad.append(((k, ss, reverse, inname, outopt), 'status %s; the weeded table is not in %s (files now: %s)' % (st, cand[0] if cand else 'the --output file', sorted(W.skf))))
                     elif outopt and W.table(inname) != before:
                         bad.append(((k, ss, reverse, inname, outopt), 'the input file was modified although --output was given'))
+    # the filter options of ska weed, one at a time and in pairs, for the 64- and the 128-bit file: each reaches the parameter it names
+    import math
+    amb = [SAMPLES[0], (SAMPLES[1][0], SAMPLES[1][1] + ['ACCAGTTGACC', 'GGTACGA']), SAMPLES[2]]
+    ambL = [LONG[0], (LONG[1][0], LONG[1][1] + [LONG[1][1][0][:18] + 'A' + LONG[1][1][0][19:]]), LONG[2]]
+    for samples, k in ((amb, 5), (ambL, 33)):
+        for ft, faam, mask, icg, mf in (('NoFilter', 0, 1, 0, 0.0), ('NoConst', 0, 0, 1, 0.0), ('NoConst', 0, 1, 0, 0.0), ('NoFilter', 1, 0, 0, 0.67), ('NoAmbigOrConst', 0, 0, 1, 0.34)):
+            W, _ = world_with_build(facts, samples, k, 0)
+            n += 1
+            before = W.table('all.skf')
+            st = W.run(W.command('Weed', skf_file=S('all.skf'), weed_file=NONE, output=some(S('f.skf')), reverse=BV(1, 0), min_freq=float(mf), filter_ambig_as_missing=BV(1, faam),
+                                 filter=W.enum('cli::FilterType', ft), ambig_mask=BV(1, mask), no_gap_only_sites=BV(1, icg)))
+            t = tableops.Table(before[0], [(v, ''.join(b) if not isinstance(b, str) else b) for v, b in before[1]])
+            thr = int(math.floor(len(before[0]) * mf))
+            want_t = tableops.spec_filter(t, thr, faam, ft, mask, icg)[0] if (thr > 0 or ft != 'NoFilter' or mask or icg) else t
+            if st != 0 or 'f.skf' not in W.skf:
+                bad.append(((k, ft, faam, mask, icg, mf), 'status %s' % (st,)))
+                continue
+            got = W.table('f.skf')
+            grows = sorted((v, ''.join(b) if not isinstance(b, str) else b) for v, b in got[1])
+            if got[0] != before[0] or grows != sorted(want_t.rows):
+                bad.append(((k, ft, faam, mask, icg, mf), 'ska weed --filter %s%s%s%s --min-freq %s: saved rows differ from the documented effect; only saved %s, only specified %s' % (
+                    ft, ' --filter-ambig-as-missing' if faam else '', ' --ambig-mask' if mask else '', ' --no-gap-only-sites' if icg else '', mf,
+                    [r for r in grows if r not in want_t.rows][:3], [r for r in sorted(want_t.rows) if r not in grows][:3])))
     _report(chk, rule, rule + ':weed', 'main: Commands::Weed', bad, n, 'ska weed through main() (64- and 128-bit files): strand mode and k of the file reach the weed set; result written in place or to --output only (%d runs)')
 
 
